@@ -10,3 +10,5 @@ open Gossamer.C13
 #print axioms C13_views
 #print axioms C13_compare
 #print axioms Gossamer.parseDec_decChars
+#print axioms C13_scale_value
+#print axioms C13_scale_roundtrip
